@@ -41,12 +41,12 @@ FAMILIES = [
 EXT = {"binary": "bin"}
 
 
-def gen_program(rng):
-    """returns (source text, list of blocks (offset, size) in bits)"""
+def gen_program(rng, size=None):
+    """returns (source text, list of blocks (offset, size) in bits); size: None | "big" | "small" """
     lines = []
     blocks = []
     pos = 0
-    nblocks = rng.weighted([(1, 4), (2, 3), (3, 2)])
+    nblocks = 1 if size == "small" else rng.weighted([(1, 4), (2, 3), (3, 2)])
     label_no = [0]
 
     def label():
@@ -58,10 +58,10 @@ def gen_program(rng):
         start = pos
         last = bi == nblocks - 1
         label()
-        nitems = rng.range(1, 6)
-        if bi == 0 and rng.chance(0.7):
+        nitems = rng.range(1, 2) if size == "small" else rng.range(1, 6)
+        if bi == 0 and size != "small" and (size == "big" or rng.chance(0.7)):
             # more than one 32-byte record, so that non-zero record addresses appear
-            k = rng.range(33, 100)
+            k = rng.range(120, 300) if size == "big" else rng.range(33, 100)
             lines.append("#d8 " + ", ".join(str(rng.below(256)) for _ in range(k)))
             pos += 8 * k
         for _ in range(nitems):
@@ -278,10 +278,224 @@ def run_stream(chk, model, bins_h, image_ok, pad_py, granule, unit_of):
         if ci % 37 == 3:
             chk.sample({"stream": "groups", "argv": " ".join(base["argv"]), "bits": len(bits), "blocks": blocks})
     chk.count("groups", ngroups, invocations=len(cases), **dist)
+    run_histories(chk, model, bins_h, real, image_ok, pad_py, granule, unit_of)
+
+
+# ----------------------------------------------------------------------------- histories
+# The property speaks about the FILE a format leaves behind.  A file has a history: it may exist already (an
+# earlier, longer build; arbitrary stale bytes), and two groups of one invocation may name the same file.
+# Whatever the history, the final file must decode to the assembled bits of the LAST run, by the format of
+# the last group that wrote it, and be byte-identical to what a fresh single run writes.
+def gen_history(rng, i):
+    """returns dict(kind, stale {name: bytes}, steps [(source, blocks, [(fmt, name)])])"""
+    pool = list(DECODABLE) + OTHERS
+    kind = ["rebuild", "stale", "shared_name", "rebuild_other_format"][i % 4]
+    names = ["out%d.dat" % k for k in range(rng.range(1, 3))]
+    stale, steps = {}, []
+    if kind in ("rebuild", "rebuild_other_format"):
+        fmts = [rng.choice(pool) for _ in names]
+        nsteps = rng.range(2, 3)
+        sizes = (["big"] * (nsteps - 1) + ["small"]) if rng.chance(0.8) else [rng.choice(["big", "small", None]) for _ in range(nsteps)]
+        for st in range(nsteps):
+            src, blocks = gen_program(rng, sizes[st])
+            if kind == "rebuild_other_format" and st > 0:
+                fmts = [rng.choice(pool) for _ in names]
+            steps.append((src, blocks, list(zip(fmts, names))))
+    elif kind == "stale":
+        src, blocks = gen_program(rng, rng.choice(["small", "small", None]))
+        for n in names:
+            ln = rng.range(1, 6000)
+            how = rng.below(3)
+            stale[n] = (bytes(rng.below(256) for _ in range(ln)) if how == 0 else
+                        b"".join(rng.choice([b"0", b"1", b"a", b"f", b" ", b"\n", b":", b";", b","]) for _ in range(ln)) if how == 1 else
+                        b"\n" * ln)
+        steps.append((src, blocks, [(rng.choice(pool), n) for n in names]))
+    else:   # shared_name: several groups of ONE invocation write the same file; the last one stays
+        src, blocks = gen_program(rng, rng.choice(["big", None, "small"]))
+        k = rng.range(2, 4)
+        groups = [(rng.choice(pool), names[0]) for _ in range(k)]
+        if rng.chance(0.6):
+            # a long text format first, a compact one last
+            groups[0] = (rng.choice(["bindump", "hexdump", "mif", "annotatedbin", "hexc", "intelhex"]), names[0])
+            groups[-1] = (rng.choice(["binary", "hexstr", "binstr", "logisim16"]), names[0])
+        for n in names[1:]:
+            groups.insert(rng.below(len(groups) + 1), (rng.choice(pool), n))
+        steps.append((src, blocks, groups))
+    return {"kind": kind, "stale": stale, "steps": steps}
+
+
+def history_argv(groups):
+    args = ["-q", "main.asm"]
+    for gi, (fmt, name) in enumerate(groups):
+        if gi > 0:
+            args.append("--")
+        args += ["-f", fmt, "-o", name]
+    return args
+
+
+def run_history(exe, workroot, tag, hist):
+    """plays the history in one directory; returns ([exit codes], {name: final bytes or None}, {name: bytes of a fresh single run})"""
+    d = os.path.join(workroot, tag)
+    shutil.rmtree(d, ignore_errors=True)
+    os.makedirs(d)
+    try:
+        for n, data in hist["stale"].items():
+            with open(os.path.join(d, n), "wb") as f:
+                f.write(data)
+        rcs = []
+        for src, blocks, groups in hist["steps"]:
+            with open(os.path.join(d, "main.asm"), "w") as f:
+                f.write(src)
+            try:
+                p = subprocess.run([exe] + history_argv(groups), cwd=d, stdout=subprocess.PIPE, stderr=subprocess.PIPE, timeout=120)
+                rcs.append(p.returncode)
+            except subprocess.TimeoutExpired:
+                rcs.append(-999)
+        final = {}
+        for n in last_writers(hist):
+            fp = os.path.join(d, n)
+            final[n] = open(fp, "rb").read() if os.path.exists(fp) else None
+    finally:
+        shutil.rmtree(d, ignore_errors=True)
+    fresh = {}
+    src = hist["steps"][-1][0]
+    for k, (n, fmt) in enumerate(sorted(last_writers(hist).items())):
+        rc1, out1, f1 = invoke(exe, workroot, tag + "f%d" % k, src, argv_for([(fmt, "o")], ["s.out"]), ["s.out"])
+        fresh[n] = f1["s.out"] if rc1 == 0 else None
+    return rcs, final, fresh
+
+
+def last_writers(hist):
+    """name -> format of the last group of the last run that names it"""
+    w = {}
+    for fmt, name in hist["steps"][-1][2]:
+        w[name] = fmt
+    return w
+
+
+def verdict(dec, use_records, did, bits, image_ok, pad_py, granule, unit_of):
+    if use_records:
+        if not dec.startswith("R"):
+            return False, "the file is not a well-formed Intel HEX file"
+        recs = []
+        body = dec[2:].strip()
+        if body:
+            for e in body.split(";"):
+                ad, dd = e.split(":")
+                recs.append((int(ad), "" if dd == "-" else dd))
+        return image_ok(bits, recs, unit_of[did])
+    want = "S " + (pad_py(granule[did], bits) or "-")
+    return dec == want, "decoder gives %s, the assembled bits are %s" % (dec[:100], want[:100])
+
+
+def run_histories(chk, model, bins_h, real, image_ok, pad_py, granule, unit_of):
+    quick = chk.tier == "quick"
+    nh = 120 if quick else 1200
+    rng = chk.rng.fork("histories")
+    workroot = os.path.join(vlib.CACHE, "c11_groups", "h%d" % os.getpid())
+    hists = [gen_history(rng, i) for i in range(nh)]
+    asm = vlib.run_lines([bins_h["debug"] + "/asmtext"], ["A\t10\t1\t1\t" + vlib.hx(h["steps"][-1][0]) for h in hists])
+    results = {}
+    try:
+        with concurrent.futures.ThreadPoolExecutor(max_workers=vlib.NCPU) as ex:
+            futs = {}
+            for prof in ("debug", "release"):
+                for hi, h in enumerate(hists):
+                    futs[ex.submit(run_history, real[prof], workroot, "%s%d" % (prof[0], hi), h)] = (prof, hi)
+            for fu in concurrent.futures.as_completed(futs):
+                results[futs[fu]] = fu.result()
+    finally:
+        shutil.rmtree(workroot, ignore_errors=True)
+    dec_lines, dec_key = [], []
+    for hi, h in enumerate(hists):
+        rcs, final, fresh = results[("debug", hi)]
+        blocks = h["steps"][-1][1]
+        one_block = len(blocks) <= 1 and all(o == 0 for o, _ in blocks)
+        for n, fmt in sorted(last_writers(h).items()):
+            did = DECODABLE.get(fmt)
+            if did and final.get(n) is not None:
+                use_records = did in unit_of and not one_block
+                dec_lines.append("%s %s %s" % ("R" if use_records else "D", did, hexwire(final[n])))
+                dec_key.append((hi, n, use_records))
+    dres = dict(zip([(a, b) for a, b, _ in dec_key], vlib.run_lines(model, dec_lines)))
+    mode = {(a, b): c for a, b, c in dec_key}
+    nfiles = 0
+    dist = {}
+    for hi, h in enumerate(hists):
+        dist["history_" + h["kind"]] = dist.get("history_" + h["kind"], 0) + 1
+        a = asm[hi].split("\t")
+        base = {"kind": "history", "stream": "histories", "history": h["kind"],
+                "stale_files": {n: v.hex()[:12000] for n, v in h["stale"].items()},
+                "steps": [{"program": src, "argv": history_argv(groups), "groups": [list(g) for g in groups]} for src, _, groups in h["steps"]]}
+        if a[0] != "OK":
+            chk.violation("generated program was not assembled (%s)" % asm[hi][:80], dict(base, asm=asm[hi][:300]), found=False)
+            continue
+        bits = a[1]
+        rcs, final, fresh = results[("debug", hi)]
+        if any(rc != 0 for rc in rcs):
+            chk.violation("customasm failed (exit codes %s) in a %s history of valid programs" % (rcs, h["kind"]), dict(base, exits=rcs))
+            continue
+        if results[("release", hi)][:2] != (rcs, final):
+            chk.violation("debug and release binaries leave different files after a %s history" % h["kind"], dict(base))
+            continue
+        for n, fmt in sorted(last_writers(h).items()):
+            nfiles += 1
+            rep = dict(base, file=n, format=fmt, assembled_bits=bits,
+                       final_file_hex=hexwire(final[n])[:8000] if final.get(n) is not None else None,
+                       fresh_file_hex=hexwire(fresh[n])[:8000] if fresh.get(n) is not None else None)
+            what = {"rebuild": "after %d builds into the same file" % len(h["steps"]),
+                    "rebuild_other_format": "after %d builds (other formats before) into the same file" % len(h["steps"]),
+                    "stale": "written over a pre-existing %d-byte file" % len(h["stale"].get(n, b"")),
+                    "shared_name": "named by %d groups of one invocation" % sum(1 for _, m in h["steps"][-1][2] if m == n)}[h["kind"]]
+            if final.get(n) is None:
+                chk.violation("file `%s` (`-f %s`) %s does not exist" % (n, fmt, what), rep)
+                continue
+            chk.nontriv(("history", hi, n, h["steps"][-1][0]))
+            did = DECODABLE.get(fmt)
+            if did:
+                ok, why = verdict(dres.get((hi, n), "CRASH"), mode[(hi, n)], did, bits, image_ok, pad_py, granule, unit_of)
+                if not ok:
+                    chk.violation("the file on disk `%s` (`-f %s`) %s does not carry the assembled bits of the last run (%d bits): %s" % (
+                        n, fmt, what, len(bits), why), dict(rep, decoded=dres.get((hi, n), "CRASH")[:3000]))
+                    continue
+            if fresh.get(n) is None or fresh[n] != final[n]:
+                extra = ""
+                if fresh.get(n) is not None and final[n].startswith(fresh[n]):
+                    extra = ": it is the right %d bytes followed by %d bytes that no run of this program writes" % (len(fresh[n]), len(final[n]) - len(fresh[n]))
+                chk.violation("the file on disk `%s` (`-f %s`) %s differs from what a fresh run writes%s" % (n, fmt, what, extra), rep)
+        if hi % 41 == 7:
+            chk.sample({"stream": "histories", "history": h["kind"], "steps": [" ".join(history_argv(g)) for _, _, g in h["steps"]]})
+    chk.count("histories", nfiles, histories=len(hists), **dist)
+
+
+def replay_history(rep):
+    real = vlib.customasm_build(("debug",))["debug"]
+    workroot = os.path.join(vlib.CACHE, "c11_groups", "replay%d" % os.getpid())
+    hist = {"kind": rep["history"], "stale": {n: bytes.fromhex(v) for n, v in rep["stale_files"].items()},
+            "steps": [(s["program"], None, [tuple(g) for g in s["groups"]]) for s in rep["steps"]]}
+    try:
+        rcs, final, fresh = run_history(real, workroot, "r", hist)
+    finally:
+        shutil.rmtree(workroot, ignore_errors=True)
+    for n, v in hist["stale"].items():
+        print("pre-existing file %s: %d bytes" % (n, len(v)))
+    for k, s in enumerate(rep["steps"]):
+        print("--- run %d: customasm %s   -> exit %s\n%s" % (k + 1, " ".join(s["argv"]), rcs[k], s["program"][:1500]))
+    print("assembled bits of the last run (%d): %s" % (len(rep.get("assembled_bits", "")), rep.get("assembled_bits", "")[:600]))
+    for n, fmt in sorted(last_writers(hist).items()):
+        mark = "  <== recorded violation" if n == rep.get("file") else ""
+        print("=== file %s (last written by -f %s): %s bytes on disk, a fresh run writes %s%s" % (
+            n, fmt, len(final[n]) if final[n] is not None else None, len(fresh[n]) if fresh[n] is not None else None, mark))
+        if final[n] != fresh[n]:
+            print("on disk:\n" + (final[n] or b"<nothing>").decode("latin-1")[:1500])
+            print("fresh run:\n" + (fresh[n] or b"<nothing>").decode("latin-1")[:1500])
+    return 0
 
 
 def replay(rep):
     """re-run the recorded command line on the recorded program with the current binary"""
+    if rep.get("kind") == "history":
+        return replay_history(rep)
     real = vlib.customasm_build(("debug",))["debug"]
     workroot = os.path.join(vlib.CACHE, "c11_groups", "replay%d" % os.getpid())
     groups = [tuple(g) for g in rep["groups"]]
